@@ -234,6 +234,9 @@ def scn_ops(T, case):
 def cases_eval_cache(tier):
     for seq in (("f", "g"), ("g",), ("f", "g-elsewhere"), ("f", "f-elsewhere", "g")):
         yield "sequence=%s" % "-".join(seq), {"seq": list(seq)}
+        # with a variable transform the optimizer's point x stands for the user point s*x+o: 'the ensemble value at x' is the value
+        # of the user's functions at THAT point, in every evaluation kind (functions, gradient, both at once)
+        yield "sequence=%s/variable-transform" % "-".join(seq), {"seq": list(seq), "transform": True}
 
 
 def scn_eval_cache(T, case):
@@ -247,9 +250,25 @@ def scn_eval_cache(T, case):
     x1, x2 = T.real("x1", (Nv,)), T.real("x2", (Nv,))
     T.assume((x2[0] - x1[0] > 0.001) | (x1[0] - x2[0] > 0.001))
     S = T.real("samples", (R, P, Nv))
-    sev = H.ScriptedEvaluator(T, ch, lambda v, r, p, k: T.np.array([f(v[0])]))
+    fu = f  # the user's function (of user-domain variables)
+    sev = H.ScriptedEvaluator(T, ch, lambda v, r, p, k: T.np.array([fu(v[0])]))
     cfg = H.make_config(T, R, 1, 0, Nv, weights=T.const(np.array([1.0])), ow=T.const(np.array([1.0])), P=P, min_success=1, pert_min_success=1, magnitudes=T.const(np.ones(Nv)))
-    ev = H.make_evaluator(T, ch, cfg, sev, samplers=[H.FakeSampler(S)])
+    transforms = None
+    user = lambda t: t  # noqa: E731
+    if case.get("transform"):
+        sc, off = T.real("scale", (), lo=0.5, hi=2.0), T.real("offset", ())
+
+        class _VarTr:
+            def from_optimizer(self, v):
+                return v * sc + off
+
+            def __bool__(self):
+                return True
+
+        transforms = types.SimpleNamespace(variables=_VarTr(), objectives=None, nonlinear_constraints=None)
+        user = lambda t: t * sc + off  # noqa: E731
+        f = lambda t: fu(user(t))  # noqa: E731  (the ensemble as a function of the optimizer's point)
+    ev = H.make_evaluator(T, ch, cfg, sev, samplers=[H.FakeSampler(S)], transforms=transforms)
     for step in case["seq"]:
         pt = x2 if step.endswith("elsewhere") else x1
         n0 = len(sev.calls)
@@ -388,6 +407,6 @@ MANIFEST = {
     "text": "Deductive, inductive over request sequences: from every state satisfying the cache invariant and for every requested point of the pool, each callable handed to SciPy is "
             "proved (z3; the ensemble is an uninterpreted function of the point) to return the value at the requested point, to re-establish the invariant, not to re-evaluate cached "
             "quantities, never to request gradients for gradient-free methods, never to combine functions and gradients under split_evaluations; speculative only adds evaluations.",
-    "note": "ensemble evaluation abstracted by uninterpreted functions; pool condition (identical or not allclose) assumed; N=2 variables, <=1 non-linear + 1 linear constraint, batch 2; SciPy's own calling behaviour assumed",
+    "note": "base case of the induction: start() begins every run with an empty cache; the evaluator cache scenario also runs with a variable transform; ensemble evaluation abstracted by uninterpreted functions; pool condition (identical or not allclose) assumed; N=2 variables, <=1 non-linear + 1 linear constraint, batch 2; SciPy's own calling behaviour assumed",
     "technique": "contract-based deductive verification: representation invariant of the real SciPyOptimizer cache, preservation + post-conditions per operation by symbolic execution + z3/cvc5; bounded run-time contract checking as stand-in",
 }
